@@ -4,8 +4,8 @@ C15 — a minimal stack semantics of exactly the op codes miniscript emits, for 
 theorems (T3).  `Op` is the script as a list of instructions, `ser` its serialization (the inverse
 of script decoding), `opsOf` the instruction list `_fragment_script` writes (proved to serialize to
 `compile`), `exec` Bitcoin Core's `EvalScript` loop restricted to the op codes of the fragment set
-covered so far: pushes, OP_0, OP_1, CHECKSIG(VERIFY), VERIFY, BOOLAND, BOOLOR, SWAP, TOALTSTACK,
-FROMALTSTACK, IF, ELSE, ENDIF.  Any other op code is `none` ("not modelled"), never a wrong answer.
+covered so far: pushes, OP_0, OP_1, CHECKSIG(VERIFY), VERIFY, BOOLAND, BOOLOR, 0NOTEQUAL, IFDUP, SWAP,
+TOALTSTACK, FROMALTSTACK, IF, NOTIF, ELSE, ENDIF.  Any other op code is `none` ("not modelled"), never a wrong answer.
 The full Core-shaped evaluator is C08's.
 -/
 namespace Btc.Miniscript
@@ -123,6 +123,11 @@ def stepExec (sigOK : Key → Bytes → Bool) (o : Op) (s : St) : Option St :=
     match numTruth a, numTruth b with
     | some x, some y => some { s with stack := boolBytes (x || y) :: st }
     | _, _ => none
+  | .zeronotequal, v :: st =>
+    match numTruth v with
+    | some b => some { s with stack := boolBytes b :: st }
+    | none => none
+  | .ifdup, v :: st => some { s with stack := if castToBool v then v :: v :: st else v :: st }
   | _, _ => none
 
 /-- one instruction of `EvalScript`.  An OP_IF argument must be empty or 0x01 (MINIMALIF: consensus
@@ -133,6 +138,12 @@ def step (sigOK : Key → Bytes → Bool) (o : Op) (s : St) : Option St :=
     if executing s.conds then
       match s.stack with
       | v :: st => if v = [] ∨ v = [1] then some { s with stack := st, conds := castToBool v :: s.conds } else none
+      | [] => none
+    else some { s with conds := false :: s.conds }
+  | .notif =>
+    if executing s.conds then
+      match s.stack with
+      | v :: st => if v = [] ∨ v = [1] then some { s with stack := st, conds := (!castToBool v) :: s.conds } else none
       | [] => none
     else some { s with conds := false :: s.conds }
   | .opelse => match s.conds with
